@@ -162,6 +162,9 @@ def run(ctx):
     if guarded_sites.get("TextDecoder::split_utf8_start", 0) < 1 or not list(su2.calls(r"ascii_valid_up_to$")):
         r.violate("split_utf8_start|utf8-branch-guarded", "TextDecoder::split_utf8_start validates the input as UTF-8 without testing encoding == UTF_8 (or no longer limits other encodings to their ASCII prefix)", su2.loc())
 
+    # ------------------------------------------------------------------ R13.8 (generic, scoped to this property's anchors)
+    sm.rule_named_plumbing(ctx, mir, "C13", "R13.8", floor=37)
+
     ctx.not_decided += ["streaming-decoder correctness at split multi-byte characters and U+FFFD placement (encoding_rs behaviour at run time)", "numeric character reference generation for unmappable characters (encoding_rs encoder)"]
     return ("Type-level witnesses (compile_fail + compiling twin) that only ASCII-compatible encodings can be configured, who-may-call rules for the "
             "write-once shared encoding and for BOM-sniffing decode entry points, placement of the encoding switch relative to the meta token on the CFG, "
